@@ -136,3 +136,97 @@ func VerifC15RoundTrip(h *verifh.H) {
 	}
 	h.Observe("doc", len(doc))
 }
+
+// property / reference values a posted entity may carry; each is valid JSON
+// that json.Marshal reproduces byte for byte
+var (
+	vPostProps = []string{`"bob"`, `5`, `true`, `[]`, `[1,"a",true]`, `[[],[1]]`, `["x"]`}
+	vPostRefs  = []string{`"ex:e2"`, `["ex:e2","ex:e3"]`, `[]`, `["ex:e2"]`}
+)
+
+// VerifC15PostGet: a valid posted payload — parsed by the real stream parser,
+// stored, listed, serialised as the GET handlers do — comes back with the same
+// id, deleted flag and, byte for byte, the same property and reference values
+// (empty arrays stay empty arrays); the serialised collection parses again to
+// the same entity; and the entity can be updated afterwards.
+func VerifC15PostGet(h *verifh.H) {
+	hub := VerifNewHub(h)
+	ds, err := hub.Dsm.CreateDataset("d", nil)
+	h.Assert(err == nil, "create")
+	np := h.Choice("nprops", 3)
+	nr := h.Choice("nrefs", 3)
+	var pv, rv []string
+	props, refs := "", ""
+	for k := 0; k < np; k++ {
+		f := vPostProps[h.Choice("pv", len(vPostProps))]
+		pv = append(pv, f)
+		if k > 0 {
+			props += ","
+		}
+		props += `"ex:p` + itoa(k) + `":` + f
+	}
+	for k := 0; k < nr; k++ {
+		f := vPostRefs[h.Choice("rv", len(vPostRefs))]
+		rv = append(rv, f)
+		if k > 0 {
+			refs += ","
+		}
+		refs += `"ex:r` + itoa(k) + `":` + f
+	}
+	del := h.Choice("del", 2) == 1
+	doc := `[{"id":"@context","namespaces":{"ex":"http://example.com/x/"}},{"id":"ex:e1","deleted":` + vB(del) + `,"props":{` + props + `},"refs":{` + refs + `}}]`
+	parse := func(doc string) ([]*Entity, error) {
+		var out []*Entity
+		err := NewEntityStreamParser(hub.Store).ParseStream(strings.NewReader(doc), func(e *Entity) error {
+			out = append(out, e)
+			return nil
+		})
+		return out, err
+	}
+	posted, err := parse(doc)
+	h.Assert(err == nil && len(posted) == 1, "the valid payload parses :: doc="+doc)
+	if err != nil || len(posted) != 1 {
+		return
+	}
+	prefix, err := hub.Store.NamespaceManager.AssertPrefixMappingForExpansion("http://example.com/x/")
+	h.Assert(err == nil, "prefix known")
+	h.Assert(ds.StoreEntities(posted) == nil, "the parsed payload is stored :: doc="+doc)
+	res, err := ds.GetEntities("", -1)
+	h.Assert(err == nil && len(res.Entities) == 1, "listing")
+	if err != nil || len(res.Entities) != 1 {
+		return
+	}
+	got := res.Entities[0]
+	h.Assert(got.ID == prefix+":e1" && got.IsDeleted == del, "id and deleted flag come back")
+	ctxJSON, err := jsonMarshal(res.Context)
+	h.Assert(err == nil, "context serialises")
+	entJSON, err := jsonMarshal(got)
+	h.Assert(err == nil, "entity serialises")
+	body := string(entJSON)
+	for k, f := range pv {
+		h.Assert(strings.Contains(body, `"`+prefix+`:p`+itoa(k)+`":`+f), "a posted property value comes back byte for byte :: posted="+f+" body="+body)
+	}
+	for k, f := range rv {
+		want := strings.ReplaceAll(f, "ex:", prefix+":")
+		h.Assert(strings.Contains(body, `"`+prefix+`:r`+itoa(k)+`":`+want), "a posted reference value comes back byte for byte :: posted="+f+" body="+body)
+	}
+	h.Assert(len(got.Properties) == np && len(got.References) == nr, "no property or reference is lost or invented :: body="+body)
+	// the hub's own GET body parses back to the same entity
+	back, err := parse("[" + string(ctxJSON) + "," + body + "]")
+	h.Assert(err == nil && len(back) == 1, "the serialised collection parses :: body="+body)
+	if err == nil && len(back) == 1 {
+		p1, _ := jsonMarshal(got.Properties)
+		p2, _ := jsonMarshal(back[0].Properties)
+		r1, _ := jsonMarshal(got.References)
+		r2, _ := jsonMarshal(back[0].References)
+		same := back[0].ID == got.ID && back[0].IsDeleted == got.IsDeleted && string(p1) == string(p2) && string(r1) == string(r2)
+		h.Assert(same, "parsing the GET body gives the same id, deleted flag, properties and references :: props="+string(p2)+" refs="+string(r2)+" body="+body)
+	}
+	// a later valid update of the entity is accepted
+	upd, err := parse(`[{"id":"@context","namespaces":{"ex":"http://example.com/x/"}},{"id":"ex:e1","props":{"ex:new":"v"},"refs":{}}]`)
+	h.Assert(err == nil && len(upd) == 1, "update parses")
+	if err == nil {
+		h.Assert(ds.StoreEntities(upd) == nil, "a later valid update of the entity is accepted :: after doc="+doc)
+	}
+	h.Observe("body", len(body))
+}
